@@ -8,6 +8,7 @@ import (
 	"flag"
 	"fmt"
 	"os"
+	"time"
 
 	"github.com/mutagen-io/mutagen/pkg/synchronization/core"
 
@@ -82,8 +83,15 @@ func main() {
 	w := hx.NewWriter(cfg, header, "rcase", *fn, 250)
 	w.Rule = "a case = (mode, ancestor, alpha, beta, plan returned by core.Reconcile); distinct = distinct Coq terms; non-trivial = the plan contains at least one alpha/beta change or conflict"
 	add := func(c Case, origin string) {
-		coq, nt, tags := runCase(c)
-		w.Add(hx.Case{Coq: coq, Replay: c, Nontrivial: nt, Tags: tags, Origin: origin})
+		if w.Aborted {
+			return
+		}
+		var coq string
+		var nt bool
+		var tags []string
+		if w.Guard(c, 5*time.Second, func() { coq, nt, tags = runCase(c) }) {
+			w.Add(hx.Case{Coq: coq, Replay: c, Nontrivial: nt, Tags: tags, Origin: origin})
+		}
 	}
 	if cfg.Replay != "" {
 		b, err := os.ReadFile(cfg.Replay)
